@@ -132,6 +132,14 @@ def main():
                        extra_imports=list(getattr(prop, "GEN_IMPORTS", [])) + tie_mods)
         if not aud["ok"]:
             problems.append({"what": "axiom / token audit", "errors": aud["problems"][:8]})
+    # thorough tier: the toolchain's independent re-checker replays the compiled declarations of the property's modules
+    rechecked = []
+    if proof_ok and args.tier == "thorough":
+        for m in ["Ufw.Props." + pid] + tie_mods:
+            r = vf.sh(["lake", "env", "leanchecker", m], cwd=vf.LEAN)
+            rechecked.append({"module": m, "ok": r.returncode == 0})
+            if r.returncode != 0:
+                problems.append({"what": "leanchecker rejects " + m, "errors": [r.stdout[-800:]]})
     thms = aud["theorems"]
     gen_obl = getattr(prop, "GEN_OBLIGATIONS", [])
     obligations = len(thms) + len(gen_obl) if proof_ok else len(vf.theorems_of(os.path.join(vf.LEAN, "Ufw/Props/%s.lean" % pid))) + len(gen_obl)
@@ -240,7 +248,7 @@ def main():
         "op_histogram": dict(hist_ops), "result_histogram": dict(hist_res),
         "case_tags": dict(collections.Counter(t for c in cases for t in c.tags)),
         "tier_run": tier_run, "spec_level_differences": len(spec_diffs), "model_level_differences": len(model_diffs),
-        "broken_obligations": problems,
+        "broken_obligations": problems, "leanchecker": rechecked,
     }
     vf.write_evidence(pid, args.tier, seed, coverage, time.time() - t0, len(violations), prop.ASSUMPTIONS)
 
